@@ -268,6 +268,7 @@ pub fn run_case(line: &str) {
     let mut rw = match built { Ok(r) => Some(r), Err(_) => { outln!("R new panic:construct"); outln!("."); return; } };
     let limiter = rw.as_ref().unwrap().verif_memory_limiter();
     let ops = parse_ops(m.get("ops").map(|s| s.as_str()).unwrap_or("E"));
+    let mut failed_before = false;
     for (k, op) in ops.iter().enumerate() {
         let res = match rw.take() {
             None => "use-after-end".to_string(),
@@ -281,11 +282,14 @@ pub fn run_case(line: &str) {
                     Ok(Err(e)) => err_str(&e).to_string(),
                     Err(p) => {
                         let msg = p.downcast_ref::<String>().cloned().or_else(|| p.downcast_ref::<&str>().map(|s| s.to_string())).unwrap_or_default();
-                        if msg.contains("after a fatal error") { "panic:poisoned".to_string() } else { format!("panic:impl {}", msg.replace('\n', " ")) }
+                        // a panic on a call made after an earlier call failed is the documented refusal of a poisoned rewriter
+                        // (whatever its wording); any other panic is reported as such
+                        if failed_before { "panic:poisoned".to_string() } else { format!("panic:impl {}", msg.replace('\n', " ")) }
                     }
                 }
             }
         };
+        if res != "ok" && res != "use-after-end" { failed_before = true; }
         for l in sh.borrow_mut().log.drain(..) { outln!("{l}"); }
         for l in STREAM_LOG.with(|l| l.borrow_mut().drain(..).collect::<Vec<_>>()) { outln!("{l}"); }
         outln!("R {k} {res}");
